@@ -153,6 +153,11 @@ type Config struct {
 	SinglePre   int64         // >0: single-preemption sweep: preempt exactly at this yield index
 	SingleTask  int           // sweep: index into the other runnable tasks
 	CodecYields bool          // make the yields inside ttlv encoder/decoder scheduling points
+	// ClockJumpPM: per-mille probability, at each scheduling point at which tasks ARE runnable, of letting
+	// simulated time pass first (to the next known deadline, or by one quantum when IdleProbe > 0). All tasks
+	// are parked at that moment, so timers fire "in the middle" of whatever the tasks were doing: deadlines
+	// can expire at arbitrary yields, not only when everything is blocked.
+	ClockJumpPM int
 }
 
 type Sim struct {
@@ -185,6 +190,7 @@ type Sim struct {
 	mu        sync.Mutex
 
 	forcePick int // single-preemption sweep
+	jumps     int
 }
 
 var active atomic.Pointer[Sim]
@@ -628,6 +634,24 @@ func (s *Sim) RunUntil(stop func() bool) (quiescent bool) {
 			return true
 		}
 		s.idleSpent = 0
+		if s.cfg.ClockJumpPM > 0 && s.jumps < 64 && s.Tape.Chance(s.cfg.ClockJumpPM, 1000) {
+			now := time.Now()
+			d := time.Duration(0)
+			if dl, ok := s.nextDeadline(now); ok {
+				d = dl.Sub(now)
+			}
+			if s.cfg.IdleProbe > 0 && (d == 0 || d > s.cfg.Quantum) {
+				d = s.cfg.Quantum
+			}
+			if d > 0 {
+				s.jumps++
+				s.Faults["clock-jump"]++
+				s.Event("clock-jump")
+				// the candidates found above stay parked; whatever the timers wake joins them
+				time.Sleep(d)
+				continue
+			}
+		}
 		sort.Slice(r, func(i, j int) bool { return r[i].ID < r[j].ID })
 		t, noop := s.pick(r)
 		if !noop {
@@ -821,4 +845,14 @@ func resetPools() {
 		p.mu.Unlock()
 	}
 	poolsMu.Unlock()
+}
+
+// SleepFor replaces time.Sleep in the overlay: a simulated sleep for tasks, a real one otherwise.
+func SleepFor(d time.Duration) {
+	s := active.Load()
+	if s == nil || s.cur == nil {
+		time.Sleep(d)
+		return
+	}
+	s.Sleep(d)
 }
